@@ -3,6 +3,9 @@
 package main
 
 import (
+	rdebug "runtime/debug"
+	"syscall"
+	"os/signal"
 	"runtime"
 	"bufio"
 	"bytes"
@@ -274,6 +277,17 @@ func cmdCheck(args []string) int {
 		defer pprof.StopCPUProfile()
 	}
 	if mp := os.Getenv("SYMGO_MEMPROFILE"); mp != "" {
+		go func() {
+			ch := make(chan os.Signal, 1)
+			signal.Notify(ch, syscall.SIGUSR1)
+			n := 0
+			for range ch {
+				n++
+				f, _ := os.Create(fmt.Sprintf("%s.live%d", mp, n))
+				pprof.WriteHeapProfile(f)
+				f.Close()
+			}
+		}()
 		defer func() {
 			f, _ := os.Create(mp)
 			pprof.WriteHeapProfile(f)
@@ -284,6 +298,11 @@ func cmdCheck(args []string) int {
 			g.Close()
 		}()
 	}
+	// A soft limit for the Go heap: with 16 workers allocating frames at full speed the collector's
+	// default pacing let the resident set grow to the machine's 62 GB on multi-million-path runs.
+	limitGB := int64(20)
+	fmt.Sscan(os.Getenv("SYMGO_MEMLIMIT_GB"), &limitGB)
+	rdebug.SetMemoryLimit(limitGB << 30)
 	start := time.Now()
 	seed := 0
 	fmt.Sscan(os.Getenv("VERIF_SEED"), &seed)
